@@ -138,6 +138,8 @@ type interpreter struct {
 	hasWindowNow bool
 	windowBase, windowSpan int64
 	windowEpoch int
+	stdin       []value
+	stdinSet    bool
 	fnCache map[*ssa.Function]*fnInfo
 }
 
